@@ -66,7 +66,13 @@ def constants(tier, rng):
     if not quick:
         fn.update({"Ages": "<- c_AgesWide", "Accs": S([0, 1, 2, 5, 20, 1000]), "FnHLs": "<- c_FnHLsWide",
                    "FnModels": S(NAMES + ["Linear", "exp"])})
-    return fn, mem, rein
+    # the override product, enumerated in EVERY tier whatever the seed: every model name as
+    # per-memory _decay_model (and absent) on every index default model x ages x access counts,
+    # with and without a configured layer; executed through all three search entry points
+    ov = dict(c)
+    ov.update({"Ages": "<- c_AgesStd", "HLs": S([604800]), "Models": S(NAMES), "Overrides": S(OVERRIDES), "Pinneds": S(["-"]),
+               "Lays": S(["none", "val"]), "Enableds": S([True]), "CTypes": S(["float64"])})
+    return fn, mem, rein, ov
 
 
 # ------------------------------------------------------------------------------- judging
@@ -153,6 +159,13 @@ def _factor_checks(label, members_exp, obs_of, tol_of, ge, gt, sorted_flags, des
         n += 1
         f = gr["score"] / sc["sim"] if sc["sim"] > 0 else None
         fac["fused"][key] = f
+        # one memory has one decay factor: the breakdown of VSearchWithScores and the factor applied by
+        # VSearch/VSearchGraph agree (up to the clock drift between the two calls)
+        if f is not None and not devs.get(key):
+            n += 1
+            if abs(f - sc["factor"]) > 2 * max(tol, alt_tol(key)) + TINY:
+                div("entry_points_disagree", "VSearchWithScores", "%s: decay_factor %r but VSearchGraph applied %r (score %r / similarity %r)" % (
+                    who, sc["factor"], f, gr["score"], sc["sim"]))
         if not within(f, lo, hi, tol):
             div("decay_factor", "VSearchGraph", "%s: score %r / similarity %r = %r, spec [%s/%s, %s/%s] tol %.2g" % (
                 who, gr["score"], sc["sim"], f, exp["lo"][0], exp["lo"][1], exp["hi"][0], exp["hi"][1], tol))
@@ -352,17 +365,18 @@ def run(tier):
     chk = Check(PROP, tier)
     rng = random.Random(vlib.seed())
     quick = tier == "quick"
-    cfn, cmem, crein = constants(tier, rng)
+    cfn, cmem, crein, cov_ = constants(tier, rng)
     vlib.build_harness(cmd="c15decay")
 
     # 1. TLC: the laws over the spec's own table + the corpus (one record per state)
     jobs = [("Decay_fn", "SpecFn", cfn, ["Inv_FnLaws"], [], 2),
             ("Decay_mem", "SpecMem", cmem, ["Inv_MemLaws"], [], 8),
+            ("Decay_override", "SpecMem", cov_, ["Inv_MemLaws"], [], 2),
             ("Decay_reinforce", "SpecReinf", crein,
              ["Inv_ReinforcedNotBelow", "Inv_DominanceOrdersEnvelopes", "Inv_CountIsInitPlusReinforcements"],
              ["Prop_ReinforceLaw", "Prop_TickLowers"], 4)]
     results = {}
-    with concurrent.futures.ThreadPoolExecutor(max_workers=3) as ex:
+    with concurrent.futures.ThreadPoolExecutor(max_workers=4) as ex:
         futs = [ex.submit(tlc, chk, n, s, c, i, p, w, 1800) for n, s, c, i, p, w in jobs]
         for f in futs:
             name, r = f.result()
@@ -378,7 +392,11 @@ def run(tier):
     if chk.infra:
         return chk.finish()
     fn_recs = sorted(results["Decay_fn"].corpus, key=lambda r: json.dumps(r["fam"], sort_keys=True))
-    mem_recs = sorted(results["Decay_mem"].corpus, key=lambda r: json.dumps(r["fam"], sort_keys=True))
+    by_fam = {json.dumps(r["fam"], sort_keys=True): r for r in results["Decay_mem"].corpus}
+    n_override = len(results["Decay_override"].corpus)
+    for r in results["Decay_override"].corpus:
+        by_fam.setdefault(json.dumps(r["fam"], sort_keys=True), r)
+    mem_recs = [by_fam[k] for k in sorted(by_fam)]
     behs, n_rein_states = vlib.behaviours_from_corpus(results["Decay_reinforce"].corpus, max_behaviours=400 if quick else None, rng=rng,
                                                       need=lambda ops: any(o["op"] == "Reinforce" for o in ops))
     # 2. white-box: every SpecFn state on the unexported functions
@@ -435,7 +453,7 @@ def run(tier):
     chk.cov["distinct_nontrivial"] = fam_nontrivial + len(behs) + sum(1 for r in fn_recs if r["fam"]["hl"] > 0)
     chk.cov["exhaustive"] = not quick
     chk.cov["impl_cases"] = {"whitebox_families": len(fn_recs), "whitebox_grid_points": wb_points, "whitebox_function_calls": wb.get("evals", 0),
-                             "blackbox_families": len(mem_recs), "blackbox_memories": n_mems,
+                             "blackbox_families": len(mem_recs), "blackbox_memories": n_mems, "override_product_families": n_override,
                              "reinforce_states": n_rein_states, "reinforce_behaviours_replayed": len(behs),
                              "reinforce_steps": sum(len(b["steps"]) for b in behs)}
     chk.cov["rule"] = ("every TLC state is one implementation test: SpecFn states -> unexported decay functions (go test -overlay); "
